@@ -9,7 +9,8 @@ SizesTwo == {<<2, 1>>, <<3, 2>>}
 PExact == [kind |-> "exact", l |-> 1, t |-> 0, r |-> 2, b |-> 1]
 PAbs == [kind |-> "aligned", w |-> 6, h |-> 4, ha |-> 1, va |-> 1]
 PRel == [kind |-> "aligned", w |-> 0, h |-> -2, ha |-> 2, va |-> 0]
-PadsAll == {NoPad, PExact, PAbs, PRel}
+PSubRel == [kind |-> "sub", w |-> -1, h |-> 0, ha |-> 1, va |-> 1]   \* user subclass, terminal-relative
+PadsAll == {NoPad, PExact, PAbs, PRel, PSubRel}
 PAbsR == [kind |-> "aligned", w |-> 6, h |-> 4, ha |-> 2, va |-> 2]   \* same padded size as PAbs
 PExactR == [kind |-> "exact", l |-> 2, t |-> 1, r |-> 1, b |-> 0]       \* same padded size as PExact
 PadsTwo == {NoPad, PAbs, PAbsR}
